@@ -9,6 +9,8 @@ pub mod c13;
 pub mod c14;
 pub mod c16;
 pub mod c17;
+pub mod c18;
+pub mod c19;
 
 use std::time::Instant;
 
@@ -257,6 +259,44 @@ pub fn run(cfg: &RunCfg, t0: Instant) -> i32 {
                 &[ASSUME_CHAIN, ASSUME_BOUNDS],
                 t0.elapsed().as_secs_f64(),
                 json!({"shards": shards, "ops_per_shard": n}),
+            )
+        }
+        "C18" => {
+            let shards = cfg.pick(4, 32);
+            let n = cfg.pick(400, 4_000);
+            let mut rep = crate::run_shards(cfg, shards, |s| c18::shard(cfg, s, n));
+            rep.floor("id_formula", 2_000);
+            rep.floor("contains_now", 2_000);
+            rep.floor("monotone", 2_000);
+            rep.floor("start_formula", 1_000);
+            rep.floor("before_genesis_fails", 100);
+            rep.floor("config_validation", 1_000);
+            rep.finish(
+                &cfg.tier,
+                cfg.seed,
+                "exploration",
+                "W-epoch: epoch-manager instances with random (genesis, duration) incl. genesis = now, genesis near u64::MAX, durations from one day to u64::MAX/k, block times at genesis-1, genesis, sampled boundaries k*duration -1/0/+1 (k up to 2^32), random inner points and the largest representable block time; every answer is compared with u128 arithmetic (id, start in nanoseconds, containment, +1 per boundary), overflowing cases must fail and never return a wrapped value; instantiate/update validation incl. non-owner; distinct = (position relative to boundary, magnitudes of duration/now/genesis)",
+                &[ASSUME_CHAIN, ASSUME_BOUNDS, "block time limited to u64 nanoseconds (chain representation)"],
+                t0.elapsed().as_secs_f64(),
+                json!({"shards": shards, "instances_per_shard": n}),
+            )
+        }
+        "C19" => {
+            let shards = cfg.pick(16, 64);
+            let n: usize = std::env::var("VERIF_N").ok().and_then(|s| s.parse().ok()).unwrap_or(cfg.pick(1_500, 40_000));
+            let mut rep = crate::run_shards(cfg, shards, |s| c19::shard(cfg, s, n));
+            rep.floor("quote_accuracy", 10_000);
+            rep.floor("d_accuracy", 3_000);
+            rep.floor("never_exceeds_reserve", 10_000);
+            rep.floor("fails_cleanly", 100);
+            rep.finish(
+                &cfg.tier,
+                cfg.seed,
+                "exploration",
+                "W-kernel: the production functions compute_swap (swap/quote path) and compute_d_with_pool_info (mint path) called on generated pool states: 2-4 assets, decimals from {6,8,12,18} and extremes {0,1,2}, amplification 1..1e6 (log-uniform + the deployed values), reserves 1 unit..1e30 with skew up to 1000:1, offers 1 unit..3x the reserve, zero and non-zero fee structures; each quote's gross output is compared with the exact big-integer solution of the Curve invariant (band: 2 ask units + exact value of 2 offered units), each mint-path D with the exact root (band 2); errors/aborts are counted per cause; distinct = (#assets, decimals tuple, magnitudes of amp/offer/reserve, direction)",
+                &[ASSUME_BOUNDS, "functions are called natively at their pub boundary (same code the Simulation query and the deposit path execute)", "exact reference resolved to 1e-6 of a normalised smallest unit"],
+                t0.elapsed().as_secs_f64(),
+                json!({"shards": shards, "pools_per_shard": n}),
             )
         }
         other => {
